@@ -207,7 +207,7 @@ func (w *printer) node(n *Node) {
 		w.node(a[0].(*Node))
 		w.ws(")::")
 		w.node(a[1].(*Node))
-	case "TypeName.mk":
+	case "SqlType.mk":
 		name := a[1].(string)
 		switch name {
 		case "timestamp":
